@@ -38,4 +38,15 @@ def run(ctx):
                 cov[k] += c[k]
             cov["samples"] += c["samples"]
             cov["configurations"] += c["configurations"]
-    return ctx.finish("exploration", cov, ASSUME)
+    # growth steps taken by every OTHER growing operation (bulk insert / append / resize / assign beyond the capacity,
+    # from every reachable (size, capacity) state incl. size < capacity after a reserve): E1 with the C18 growth rule
+    o = ["--few-ranges", "--no-ctors", "--no-menu", "--no-alias"]
+    em = [I("vector", 0, "TC4", alloc="ledgerbasic", L=5, opts=o), I("small", 2, "NTR", alloc="ledgerstd", L=5, opts=o),
+          I("vector", 0, "TR", st="uint8_t", alloc="ledgerrealloc", L=4, opts=o), I("small", 3, "TC4", st="int16_t", L=5, opts=o)]
+    cov2 = e1.explore(ctx, em, ["C18"])
+    cov["e1_states"] = cov2["states"]
+    cov["e1_transitions"] = cov2["transitions"]
+    cov["evaluations"] += cov2["transitions"]
+    cov["samples"] += cov2["samples"][:3]
+    cov["exhaustive"] = cov["exhaustive"] and cov2["exhaustive"]
+    return ctx.finish("exploration", cov, ASSUME + ["growth rule for bulk operations: E1 transitions in which the capacity of a dynamic vector increases without reserve/move/swap must reach ceil(1.5 x old capacity)"])
